@@ -149,7 +149,7 @@ def body_factory(tier, seed):
 
 
 def run(rep, tier, seed):
-    return C.standard_run(rep, PROP, ["Model/CaseVerdict.vo"], body_factory(tier, seed), rule=(
+    return C.standard_run(rep, PROP, ["Model/CaseVerdict.vo"], [body_factory(tier, seed + 1000 * i) for i in range(3 if tier == "thorough" else 1)], rule=(
         "requests = (version, direction, action, payload) drawn from the per-schema instance generator over all 206 schemas "
         "(valid and violating), both versions mixed, the three decimal-mode messages with ordinary and huge numbers, and action "
         "names of the other version; each verdict is compared with that of the same request validated alone (cold cache): in "
